@@ -276,6 +276,7 @@ type BytecodeCompiler struct {
 	loopJumpSets          []*bytecodeLoopJumpSet
 	offsetValueIds        []int // ids of integers in the value pool that represent bytecode offsets
 	pendingCalls          []*bytecodeCall
+	closeUpvaluesCount    int // number of emitted CLOSE_UPVALUES instructions
 	secondToLastOpCode    bytecode.OpCode
 	lastOpCode            bytecode.OpCode
 	parent                *BytecodeCompiler
@@ -1869,10 +1870,15 @@ func (c *BytecodeCompiler) compileDo(body func(), catches []*ast.CatchNode, fina
 		scopeType = defaultBytecodeScopeType
 	}
 
+	firstBodyLocal := c.lastLocalIndex + 1
+	closesBeforeBody := c.closeUpvaluesCount
+
 	c.enterScope("", scopeType)
 	body()
 	c.leaveScope(location.EndPos.Line)
 
+	// a scope inside the body has locals captured by closures
+	bodyHasCapturedLocals := c.closeUpvaluesCount != closesBeforeBody
 	doEndOffset := c.nextInstructionOffset()
 
 	if finally != nil {
@@ -1892,6 +1898,11 @@ func (c *BytecodeCompiler) compileDo(body func(), catches []*ast.CatchNode, fina
 	catchStartOffset := c.nextInstructionOffset()
 
 	c.registerCatch(doStartOffset, doEndOffset, catchStartOffset, false)
+	if bodyHasCapturedLocals && firstBodyLocal >= 0 {
+		// an error unwinds the scopes of the body without running their CLOSE_UPVALUES,
+		// the handlers reuse the slots of the body's locals
+		c.emitCloseUpvalues(location.StartPos.Line, uint16(firstBodyLocal))
+	}
 
 	c.enterScope("", defaultBytecodeScopeType)
 
@@ -8850,6 +8861,7 @@ func (c *BytecodeCompiler) emitGetUpvalue(line int, index uint16) {
 
 // Emit an instruction that closes upvalues.
 func (c *BytecodeCompiler) emitCloseUpvalues(line int, index uint16) {
+	c.closeUpvaluesCount++
 	switch index {
 	case 1:
 		c.emit(line, bytecode.CLOSE_UPVALUES_TO_1)
